@@ -35,7 +35,8 @@ __CPROVER_requires(__CPROVER_rw_ok(z, sizeof(*z)) && cmp == newest_first)
 __CPROVER_requires(z->length >= 1 && z->length <= 3 && __CPROVER_rw_ok(z->items, 3 * sizeof(void *)))
 __CPROVER_requires(IS_L0(z->items[0]) && (z->length < 2 || IS_L0(z->items[1])) && (z->length < 3 || IS_L0(z->items[2])))
 __CPROVER_requires(L0_NUMS_TIED)
-__CPROVER_assigns(__CPROVER_object_upto(z->items, 3 * sizeof(void *)))
+/* the three slots named one by one: havocking them as typed pointers is far cheaper than a byte-wise object_upto */
+__CPROVER_assigns(z->items[0], z->items[1], z->items[2])
 /* same elements, each as often as before */
 __CPROVER_ensures(z->length == 1 ==> PERM1(z->items[0], __CPROVER_old(z->items[0])))
 __CPROVER_ensures(z->length == 2 ==> PERM2(z->items[0], z->items[1], __CPROVER_old(z->items[0]), __CPROVER_old(z->items[1])))
@@ -138,14 +139,133 @@ static void for_each_common(size_t n0, size_t n1, size_t n6) {
   ldb_version_for_each_overlapping(&g_ver, &g_uks, &g_iks, &g_cb_arg, fe_cb);
 }
 void h_for_each_l0(void) {
-  IN_SIZE(in_n0); IN_SIZE(in_n1);
-  ASSUME(in_n0 <= GETF0 && in_n1 <= 1);
-  for_each_common(in_n0, in_n1, 0);
+  IN_SIZE(in_n0); IN_SIZE(in_n1); IN_SIZE(in_n6);
+  ASSUME(in_n0 <= GETF0 && in_n1 <= 2 && in_n6 <= 2);
+  for_each_common(in_n0, in_n1, in_n6);
   CANARY();
 }
-void h_for_each_l0only(void) {
-  IN_SIZE(in_n0);
-  ASSUME(in_n0 <= GETF0);
-  for_each_common(in_n0, 0, 0);
+
+/* ======================================================================
+ * ver2.base - is_base_level_for_key (C01 K6, C06)
+ * ======================================================================
+ * Files in model levels 2, 5 and 6 (<= 2 each, levels 3 and 4 empty);
+ * compaction level 0 (levels 2..6 are searched), 3 (levels 5, 6) or 4 (level 6).
+ */
+static ldb_compaction_t g_c; static uint8_t g_bq;   /* probe user key */
+static ldb_slice_t g_bqs; static uint8_t g_bq_b[1];
+static size_t g_lp0[LDB_NUM_LEVELS];                /* level pointers before the call */
+#define HAS_KEY_AT(l, i) ((l) >= g_c.level + 2 && (i) < g_n[l] && g_suk[l][i] <= g_bq && g_bq <= g_luk[l][i])
+#define HAS_KEY_BELOW (HAS_KEY_AT(2,0) || HAS_KEY_AT(2,1) || HAS_KEY_AT(3,0) || HAS_KEY_AT(3,1) || HAS_KEY_AT(4,0) || HAS_KEY_AT(4,1) || \
+                       HAS_KEY_AT(5,0) || HAS_KEY_AT(5,1) || HAS_KEY_AT(6,0) || HAS_KEY_AT(6,1))
+/* every file before the level pointer ends before the probe key (keys are presented in ascending order) */
+#define PTR_OK(l) (g_c.level_ptrs[l] <= g_n[l] && (g_c.level_ptrs[l] < 1 || g_luk[l][0] < g_bq) && (g_c.level_ptrs[l] < 2 || g_luk[l][1] < g_bq))
+#define PTRS_OK (PTR_OK(2) && PTR_OK(3) && PTR_OK(4) && PTR_OK(5) && PTR_OK(6))
+#define PTR_FWD(l) (g_c.level_ptrs[l] >= g_lp0[l])
+#define PTR_SAME(l) (g_c.level_ptrs[l] == g_lp0[l])
+int c_is_base_level_for_key(ldb_compaction_t *c, const ldb_slice_t *user_key)
+__CPROVER_requires(c == &g_c && user_key == &g_bqs && g_c.input_version == &g_ver && g_c.level >= 0 && g_c.level <= LDB_NUM_LEVELS - 2)
+__CPROVER_requires(g_n[2] <= 2 && g_n[3] <= 2 && g_n[4] <= 2 && g_n[5] <= 2 && g_n[6] <= 2)
+__CPROVER_requires(DISJOINT_SORTED(2) && DISJOINT_SORTED(3) && DISJOINT_SORTED(4) && DISJOINT_SORTED(5) && DISJOINT_SORTED(6))
+__CPROVER_requires(PTRS_OK)
+__CPROVER_requires(PTR_SAME(0) && PTR_SAME(1) && PTR_SAME(2) && PTR_SAME(3) && PTR_SAME(4) && PTR_SAME(5) && PTR_SAME(6))
+__CPROVER_assigns(__CPROVER_object_whole(g_c.level_ptrs))
+/* 0 iff some file in a level >= level+2 contains the user key in [smallest.user, largest.user] */
+__CPROVER_ensures(__CPROVER_return_value == (HAS_KEY_BELOW ? 0 : 1))
+/* the pointers only move forward and keep their meaning for the next (larger) key */
+__CPROVER_ensures(PTRS_OK)
+__CPROVER_ensures(PTR_SAME(0) && PTR_SAME(1))
+__CPROVER_ensures(PTR_FWD(2) && PTR_FWD(3) && PTR_FWD(4) && PTR_FWD(5) && PTR_FWD(6))
+/* levels the compaction itself reads or writes (< level+2) are never consulted */
+__CPROVER_ensures((g_c.level + 2 <= 2 || PTR_SAME(2)) && (g_c.level + 2 <= 3 || PTR_SAME(3)) && (g_c.level + 2 <= 4 || PTR_SAME(4)) && (g_c.level + 2 <= 5 || PTR_SAME(5)) && (g_c.level + 2 <= 6 || PTR_SAME(6)))
+;
+void h_is_base_level(void) {
+  IN_INT(in_level); IN_SIZE(in_n2); IN_SIZE(in_n5); IN_SIZE(in_n6);
+  ASSUME(in_n2 <= 2 && in_n5 <= 2 && in_n6 <= 2);
+  mk_version(); mk_level(2, in_n2); mk_level(5, in_n5); mk_level(6, in_n6);
+  ASSUME(DISJOINT_SORTED(2) && DISJOINT_SORTED(5) && DISJOINT_SORTED(6));
+  g_c.input_version = &g_ver;
+  g_lp0[0] = nondet_size(); g_lp0[1] = nondet_size(); g_lp0[2] = nondet_size(); g_lp0[3] = nondet_size();
+  g_lp0[4] = nondet_size(); g_lp0[5] = nondet_size(); g_lp0[6] = nondet_size();
+  g_c.level_ptrs[0] = g_lp0[0]; g_c.level_ptrs[1] = g_lp0[1]; g_c.level_ptrs[2] = g_lp0[2]; g_c.level_ptrs[3] = g_lp0[3];
+  g_c.level_ptrs[4] = g_lp0[4]; g_c.level_ptrs[5] = g_lp0[5]; g_c.level_ptrs[6] = g_lp0[6];
+  g_bq = nondet_u8(); g_bq_b[0] = g_bq; g_bqs.data = g_bq_b; g_bqs.size = 1; g_bqs.alloc = 0;
+  ASSUME(PTRS_OK);
+  /* one call site per concrete level (keeps the level index of every access constant for CBMC) */
+  switch (in_level) {
+    case 0: g_c.level = 0; ldb_compaction_is_base_level_for_key(&g_c, &g_bqs); break;
+    case 3: g_c.level = 3; ldb_compaction_is_base_level_for_key(&g_c, &g_bqs); break;
+    default: g_c.level = 4; ldb_compaction_is_base_level_for_key(&g_c, &g_bqs); break;
+  }
+  CANARY();
+}
+
+/* ======================================================================
+ * ver2.inputs_l0 - get_overlapping_inputs at level 0: the result is closed
+ * under range expansion (C14, C01)
+ * ======================================================================
+ * expected set = least fixpoint of "add every file overlapping the range,
+ * widen the range to it", computed by the harness independently of the
+ * code's restart logic.
+ */
+#define INF 3
+static ldb_ikey_t g_bk, g_ek2; static uint8_t g_bk_b[9], g_ek_b[9];
+static ldb_vector_t g_inputs;
+static int g_has_lo, g_has_hi; static uint8_t g_lo_v, g_hi_v;
+static uint8_t g_xlo, g_xhi;       /* ghost: the expanded user-key range */
+#define BEGIN_PTR (g_has_lo ? &g_bk : (const ldb_ikey_t *)NULL)
+#define END_PTR (g_has_hi ? &g_ek2 : (const ldb_ikey_t *)NULL)
+#define EXP_IN(i) ((i) < g_n[0] && !(g_has_lo && g_xlo > g_luk[0][i]) && !(g_has_hi && g_xhi < g_suk[0][i]))
+#define EXP_CNT ((EXP_IN(0) ? 1 : 0) + (EXP_IN(1) ? 1 : 0) + (EXP_IN(2) ? 1 : 0))
+#define IN_MEMBER(i) ((g_inputs.length > 0 && g_inputs.items[0] == g_fmp[0][i]) || (g_inputs.length > 1 && g_inputs.items[1] == g_fmp[0][i]) || \
+                      (g_inputs.length > 2 && g_inputs.items[2] == g_fmp[0][i]))
+#define IN_EXACT_AT(i) ((EXP_IN(i) ? 1 : 0) == (IN_MEMBER(i) ? 1 : 0))
+/* closure: no file outside the result overlaps the user-key hull of the result (and of the requested range) */
+void c_get_overlapping_inputs0(ldb_version_t *ver, int level, const ldb_ikey_t *begin, const ldb_ikey_t *end, ldb_vector_t *inputs)
+__CPROVER_requires(ver == &g_ver && level == 0 && begin == BEGIN_PTR && end == END_PTR && inputs == &g_inputs)
+__CPROVER_requires(g_n[0] <= INF && g_inputs.items == NULL && g_inputs.alloc == 0)
+__CPROVER_assigns(g_inputs.items, g_inputs.length, g_inputs.alloc)
+/* exactly the files of the level that overlap the expanded range, each once */
+__CPROVER_ensures(g_inputs.length == (size_t)EXP_CNT)
+__CPROVER_ensures(IN_EXACT_AT(0) && IN_EXACT_AT(1) && IN_EXACT_AT(2))
+;
+static void spec_expand(void) {
+  int round; size_t i;
+  g_xlo = g_lo_v; g_xhi = g_hi_v;
+  for (round = 0; round < INF; round++)
+    for (i = 0; i < INF; i++)
+      if (EXP_IN(i)) {
+        if (g_has_lo && g_suk[0][i] < g_xlo) g_xlo = g_suk[0][i];
+        if (g_has_hi && g_luk[0][i] > g_xhi) g_xhi = g_luk[0][i];
+      }
+}
+static void inputs_l0_common(size_t n) {
+  mk_version();
+  g_has_lo = nondet_int() ? 1 : 0; g_has_hi = nondet_int() ? 1 : 0;
+  g_lo_v = nondet_u8(); g_hi_v = nondet_u8();
+  mk_ikey(&g_bk, g_bk_b, g_lo_v, nondet_u64());
+  mk_ikey(&g_ek2, g_ek_b, g_hi_v, nondet_u64());
+  g_inputs.items = NULL; g_inputs.length = 0; g_inputs.alloc = 0;
+  mk_level(0, n);
+  /* files are well-formed: smallest user key <= largest user key */
+  ASSUME((n < 1 || g_suk[0][0] <= g_luk[0][0]) && (n < 2 || g_suk[0][1] <= g_luk[0][1]) && (n < 3 || g_suk[0][2] <= g_luk[0][2]));
+  spec_expand();
+  ldb_version_get_overlapping_inputs(&g_ver, 0, BEGIN_PTR, END_PTR, &g_inputs);
+  /* closure, stated directly on the result: no file left outside overlaps the hull of (requested range + files inside) */
+  { size_t i; uint8_t hlo = g_lo_v, hhi = g_hi_v;
+    for (i = 0; i < INF; i++)
+      if (i < n && IN_MEMBER(i)) {
+        if (g_suk[0][i] < hlo) hlo = g_suk[0][i];
+        if (g_luk[0][i] > hhi) hhi = g_luk[0][i];
+      }
+    for (i = 0; i < INF; i++)
+      if (i < n && !IN_MEMBER(i))
+        CHECK((g_has_lo && g_luk[0][i] < hlo) || (g_has_hi && g_suk[0][i] > hhi),
+              "get_overlapping_inputs(level 0): closed under range expansion - every file left out lies entirely outside the user-key hull of the requested range and the chosen files");
+  }
+}
+void h_inputs_level0(void) {
+  IN_SIZE(in_n);
+  ASSUME(in_n <= 2);
+  inputs_l0_common(in_n);
   CANARY();
 }
